@@ -11,6 +11,7 @@ def run(facts, tier):
         ("tables", P.table_rules, 41, "22 byte codes + the 65-entry unary code are complete prefix codes; 16 column permutations are bijections; definitional tables equal their definitions"),
         ("probes", P.probe_rules, 2, "coupon-table probes are circular"),
         ("union folds", P.union_rules, 5, "rows are folded with & ((1 << lg_k) - 1); reduce_k folds into a fresh matrix and precedes every merge"),
+        ("window invariant", P.window_invariants, 1, "first_interesting_column is clamped to the window offset whenever it is recomputed"),
         ("pair codec", P.pair_codec, 1, "(row << 6) | col everywhere"),
         ("canonical chains", lambda fa: chains.obligations(fa, ["cpc"]), 11, "typed update overloads follow the cross-language canonicalisation contract"),
         ("couplings", lambda fa: cowrite.obligations(fa, ['u32_table']), 2, "fields that every mutator updates together (counters, extremes, cached values) are still updated together"),
